@@ -83,7 +83,8 @@ def check_model(m, cons, vars_, tag, failures):
             fm = c.evaluate()
             v.value = x0
             fd = (fp - fm) / (2 * h)
-            if math.isfinite(fd) and abs(fd - want) > 1e-3 * max(1.0, abs(want)) and abs(want) < 1e6:
+            noise = 2.3e-16 * max(abs(fp), abs(fm)) / h       # rounding of the two evaluations, amplified by 1/(2h)
+            if math.isfinite(fd) and abs(fd - want) > 1e-3 * max(1.0, abs(want)) and abs(want) < 1e6 and noise < 1e-4 * max(1.0, abs(want)):
                 # the central difference is meaningless across a kink / branch threshold: only smooth constraints
                 smooth = not isinstance(c.expr, E.ConditionalExpression) and not KINKS.get(id(c), False)
                 if smooth:
